@@ -980,7 +980,10 @@ class C17(Prop):
                     ds.Compiler(opts).compile_file(os.path.join(root, "main.txt"))
                 except ds.CompilationError:
                     pass
-                after = common.compiled_rec(ds.Compiler(opts).compile(probe)) if True else None
+                try:
+                    after = common.compiled_rec(ds.Compiler(opts).compile(probe))
+                except Exception as e:
+                    after = common.error_rec(e)
                 if opts.to_dict() != before or json.dumps(after, sort_keys=True) != json.dumps(base, sort_keys=True):
                     viol.append(({"kind": "history", "project_config": proj_cfg, "probe": probe}, "options_object_mutated",
                                  "compiling a project file changed the caller's CompileOptions object / a later compilation with it"))
